@@ -1074,7 +1074,7 @@ func c15GenerateScale(r *RNG, thorough bool) (c15Case, c15ScaleShape) {
 	sh.Vocab = c15LogPick(r, []int{3, 30, 300, 3000})
 	trainLadder := []int{0, 1, 2, 6, 20, 60, 200}
 	if thorough {
-		trainLadder = append(trainLadder, 600, 2000)
+		trainLadder = append(trainLadder, 600)
 	}
 	sh.NTrain = c15LogPick(r, trainLadder)
 	sh.TrainWords = c15LogPick(r, []int{2, 5, 5, 30, 200})
@@ -1084,7 +1084,7 @@ func c15GenerateScale(r *RNG, thorough bool) (c15Case, c15ScaleShape) {
 	// keep the training journal within what the model's association lists handle in a fraction of a second
 	budget := 2500
 	if thorough {
-		budget = 30000
+		budget = 8000
 	}
 	for sh.NTrain*(sh.TrainWords/2+6) > budget && sh.TrainWords > 2 {
 		sh.TrainWords /= 2
@@ -1916,7 +1916,7 @@ func runC15(c *Ctx) {
 	x.flush()
 
 	// ---- scale: long descriptions, large vocabularies and training journals, many accounts (library code in-process)
-	ns := c.N(80, 6000)
+	ns := c.N(80, 600) // thorough cases are up to ten times larger (c15GenerateScale); 6000 of them kept the Lean driver busy for hours
 	tScale := time.Now()
 	for i := 0; i < ns; i++ {
 		if !c.Want("scale", i) {
